@@ -152,6 +152,11 @@ impl ArrayLike for ExprArray {
 			ArrayThunk::Waiting => {}
 		}
 
+		// Computing an element is a frame of its own, like computing an object field: elements that
+		// read elements of freshly built arrays (`local f(x) = [f(x + 1)[0]]; f(0)[0]`) never nest
+		// function calls and would not be bounded by the stack limit otherwise.
+		let _guard = crate::stack::check_depth()?;
+
 		let ArrayThunk::Waiting =
 			replace(&mut self.cached.borrow_mut()[index], ArrayThunk::Pending)
 		else {
@@ -461,6 +466,9 @@ impl ArrayLike for MappedArray {
 			ArrayThunk::Pending => return Err(InfiniteRecursionDetected.into()),
 			ArrayThunk::Waiting => {}
 		}
+
+		// A frame of its own, see `ExprArray::get`
+		let _guard = crate::stack::check_depth()?;
 
 		let ArrayThunk::Waiting =
 			replace(&mut self.cached.borrow_mut()[index], ArrayThunk::Pending)
